@@ -29,7 +29,7 @@ from hsim.worlds.udp import Arrival, UdpWorld
 
 PROPERTY = "C07"
 CHUNK = {"quick": 16, "thorough": 40}
-PROBES = ["subscriber_block_left_by_exception", "subscriber_task_cancelled", "message_after_subscriber_gone",
+PROBES = ["waiter_cancelled_while_subscribed", "subscriber_block_left_by_exception", "subscriber_task_cancelled", "message_after_subscriber_gone",
           "plain_subscriber_raised", "raise_then_later_hook_takes", "subscriber_take_then_addon_drop", "subscriber_take_then_command_channel",
           "delayed_resend_of_copy", "two_rlv_commands_both_handled", "rlv_partially_handled",
           "truthy_with_pending_take", "packet_hook_swallowed", "illegal_followup_rejected", "lifecycle_hook_raised",
@@ -564,11 +564,12 @@ def run_plan(plan: dict) -> RunResult:
                 # runs synchronously right before the repo's handler takes / observes the message
                 tag = tag_of_message(msg)
                 if sub.get("gone"):
-                    # the subscriber's block has ended (normally, by exception or by cancellation): nothing may
-                    # still be taking messages on its behalf
-                    violate("C07/isolation/stale-subscriber-still-subscribed", tag=tag, how=sub["gone"],
-                            mode=st["mode"], take=take)
-                    return False
+                    # the subscriber is gone (block ended normally / by exception / by cancellation, future resolved /
+                    # timed out / cancelled): nothing may still be *taking* messages on its behalf
+                    # (not recorded as a take: the ownership model then expects the message to be forwarded, and the
+                    #  wire check reports it as lost if a leftover subscription took it anyway)
+                    rec.add(kind="stale_subscription_notified", tag=tag, how=sub["gone"], mode=st["mode"], take=take)
+                    return True
                 if take:
                     rec.add(kind="take", tag=tag, by="subscriber", effective=not msg.finalized)
                 else:
@@ -615,10 +616,22 @@ def run_plan(plan: dict) -> RunResult:
                 fut = handler.wait_for(tuple(st["names"]), predicate=predicate, timeout=st.get("timeout"), take=take)
 
                 def _done(f):
+                    # resolved, timed out or cancelled: whoever waited is no longer interested
+                    sub["gone"] = "resolved" if not f.cancelled() and f.exception() is None else (
+                        "cancelled" if f.cancelled() else "timed out")
                     if f.cancelled() or f.exception() is not None:
                         return
                     consume(f.result())
                 fut.add_done_callback(_done)
+                if st.get("exit") == "cancel":
+                    # what happens to the future when the task awaiting it is cancelled (session closed,
+                    # region changed, addon unloaded)
+                    def _cancel():
+                        if not fut.done():
+                            res.probe("waiter_cancelled_while_subscribed")
+                            fut.cancel()
+                            sub["gone"] = "cancelled"
+                    loop.call_later(st.get("cancel_after", 0.0), _cancel)
             else:
                 how = st.get("exit", "normal")
 
@@ -819,7 +832,11 @@ def run_plan(plan: dict) -> RunResult:
             if n_orig != want_orig:
                 kind = "C07/wire/original-duplicated" if n_orig > 1 else (
                     "C07/wire/original-lost" if n_orig < want_orig else "C07/wire/claimed-original-forwarded")
+                stale = [e for e in entries if e["kind"] == "stale_subscription_notified" and e.get("take")]
+                if stale and n_orig < want_orig:
+                    kind = "C07/isolation/stale-subscriber-took-message"
                 return violate(kind, tag=tag, emitted=n_orig, want=want_orig, claimed=claimed,
+                               stale=[{"how": e["how"], "mode": e["mode"]} for e in stale][:2],
                                log=[{k: v for k, v in e.items() if k in ("kind", "hook", "addon", "beh", "by", "ok")}
                                     for e in entries][:14])
             dropped = bool(drops) or bool(takes) or cmd_channel or (rlv_handled_cmds > 0)
